@@ -37,6 +37,8 @@ type c07World struct {
 	vetoStore    string
 	vetoKind     boltz.EntityEventType
 	vetoFired    bool
+	stratStore   string // child store whose strategy refuses ...
+	stratOp      string // ... "update" or "delete" arriving through the parent
 }
 
 type c07Constraint struct {
@@ -69,6 +71,17 @@ func newC07World() *c07World {
 		s.AddListener(func(boltz.Entity) { atomic.AddInt64(&w.listenerHits, 1) }, boltz.EntityCreatedAsync, boltz.EntityUpdatedAsync, boltz.EntityDeletedAsync)
 		s.AddEntityIdListener(func(string) { atomic.AddInt64(&w.listenerHits, 1) }, boltz.EntityDeleted)
 	}
+	// a child-store strategy may refuse an update or delete arriving through the parent store
+	for _, name := range []string{"mgr", "prof"} {
+		name := name
+		stores[name].StrategyVeto = func(op string, id string) error {
+			if w.stratStore == name && w.stratOp == op {
+				w.vetoFired = true
+				return errVeto
+			}
+			return nil
+		}
+	}
 	return w
 }
 
@@ -85,6 +98,7 @@ type c07Fault struct {
 	callerAt  int    // caller error returned before op index callerAt (len(body) = after the last op)
 	vetoStore string
 	vetoKind  boltz.EntityEventType
+	stratOp   string // kind "strategy": the child store vetoStore refuses this operation in its child-store strategy
 	writeNo   int
 	pre       string // precommit: the registered pre-commit actions in order, F = fails, S = succeeds
 }
@@ -93,6 +107,8 @@ func (f c07Fault) String() string {
 	switch f.kind {
 	case "caller":
 		return fmt.Sprintf("caller-error-before-op-%d", f.callerAt)
+	case "strategy":
+		return fmt.Sprintf("strategy-refusal(%s,%s)", f.vetoStore, f.stratOp)
 	case "veto":
 		return fmt.Sprintf("veto(%s,%s)", f.vetoStore, map[boltz.EntityEventType]string{boltz.EntityCreated: "create", boltz.EntityUpdated: "update", boltz.EntityDeleted: "delete"}[f.vetoKind])
 	case "storage":
@@ -120,7 +136,9 @@ func (w *c07World) extraOps() []explore.Op {
 			Apply: func(m explore.Model) []string { return []string{"unusable-key", "exists"} }},
 		// rejected by input validation before anything is written
 		{Name: "create@people(<blank id>)",
-			Do:    func(ctx boltz.MutateContext) error { return k.people.Create(ctx, k.personRec("", "C", nil, nil, nil, nil)) },
+			Do: func(ctx boltz.MutateContext) error {
+				return k.people.Create(ctx, k.personRec("", "C", nil, nil, nil, nil))
+			},
 			Apply: func(m explore.Model) []string { return []string{"invalid"} }},
 		{Name: "create@people(<entity of another store's type>)",
 			Do: func(ctx boltz.MutateContext) error {
@@ -131,7 +149,9 @@ func (w *c07World) extraOps() []explore.Op {
 			Do:    func(ctx boltz.MutateContext) error { var r *world.Rec; return k.people.Create(ctx, r) },
 			Apply: func(m explore.Model) []string { return []string{"invalid"} }},
 		{Name: "update@people(<blank id>)",
-			Do:    func(ctx boltz.MutateContext) error { return k.people.Update(ctx, k.personRec("", "C", nil, nil, nil, nil), nil) },
+			Do: func(ctx boltz.MutateContext) error {
+				return k.people.Update(ctx, k.personRec("", "C", nil, nil, nil, nil), nil)
+			},
 			Apply: func(m explore.Model) []string { return []string{"invalid"} }},
 		{Name: "update@mgr(<nil entity>)",
 			Do:    func(ctx boltz.MutateContext) error { var r *world.Rec; return k.mgr.Update(ctx, r, nil) },
@@ -360,6 +380,11 @@ func c07State(rep *report.Report, w *c07World, ops []explore.Op, bodies [][]int,
 				faults = append(faults, c07Fault{kind: "veto", vetoStore: sn, vetoKind: kind})
 			}
 		}
+		for _, sn := range []string{"mgr", "prof"} {
+			for _, op := range []string{"update", "delete"} {
+				faults = append(faults, c07Fault{kind: "strategy", vetoStore: sn, stratOp: op})
+			}
+		}
 		routes := []string{"Update"}
 		if bi%7 == 0 {
 			routes = append(routes, "nested-Update")
@@ -389,6 +414,7 @@ func c07State(rep *report.Report, w *c07World, ops []explore.Op, bodies [][]int,
 				for _, sn := range c07StoreNames {
 					bfaults = append(bfaults, c07Fault{kind: "veto", vetoStore: sn, vetoKind: boltz.EntityDeleted})
 				}
+				bfaults = append(bfaults, c07Fault{kind: "strategy", vetoStore: "mgr", stratOp: "delete"}, c07Fault{kind: "strategy", vetoStore: "prof", stratOp: "delete"})
 			}
 			for _, f := range bfaults {
 				c07Run(rep, w, h, ops, body, st, m, reject, f, "Batch", pre, preHash)
@@ -406,6 +432,10 @@ func c07Run(rep *report.Report, w *c07World, h *c07Db, ops []explore.Op, body []
 	w.vetoStore, w.vetoKind = "", 0
 	if f.kind == "veto" {
 		w.vetoStore, w.vetoKind = f.vetoStore, f.vetoKind
+	}
+	w.stratStore, w.stratOp = "", ""
+	if f.kind == "strategy" {
+		w.stratStore, w.stratOp = f.vetoStore, f.stratOp
 	}
 	opErrs := make([]error, len(body))
 	ran := make([]bool, len(body))
